@@ -32,6 +32,7 @@ def T_dict(k, v): return ("dict", k, v)
 PS, PL = "PauliString", "label"
 OBJ, BITS, GI = "obj", "bits", "gi"
 COLL = "coll"
+STRT = "pytext"
 def T_opt(t): return ("option", t)
 MORPH = ("morph",)      # a Morph object = its legs : list (list V)
 
@@ -44,6 +45,7 @@ def coq_type(t):
     if t == PL: return "pl"
     if t == OBJ: return "obj"
     if t == COLL: return "coll"
+    if t == STRT: return "(list ascii)"
     if isinstance(t, tuple) and t[0] == "option": return "(option %s)" % coq_type(t[1])
     if t == BITS: return "(list bool)"
     if t == GI: return "gi"
@@ -62,6 +64,7 @@ def default(t, enums):
     if t == BITS: return "[]"
     if t == OBJ: return "(fresh_bits [])"
     if t == COLL: return "{| gens := []; cache := None |}"
+    if t == STRT: return "[]"
     if isinstance(t, tuple) and t[0] == "option": return "None"
     if t == GI: return "(0, 0)"
     if t == MORPH: return "[]"
@@ -186,9 +189,14 @@ class Fn:
         if isinstance(e, ast.BoolOp):
             parts = [self.expr(v, env) for v in e.values]
             if any(t != B for _, t, _ in parts): bad(e, "and/or of non-bool")
-            if any(g for _, _, g in parts[1:]): bad(e, "guarded operation under a short-circuit operator")
             op = " && " if isinstance(e.op, ast.And) else " || "
-            return "(" + op.join(c for c, _, _ in parts) + ")", B, parts[0][2]
+            # short circuit: the guards of a later operand matter only when the earlier operands let evaluation reach it
+            gs = list(parts[0][2])
+            for i_ in range(1, len(parts)):
+                reach = "(" + op.join(c for c, _, _ in parts[:i_]) + ")"
+                skip = ("(negb %s)" % reach) if isinstance(e.op, ast.And) else reach
+                gs += [("(%s || %s)" % (skip, gb), o) for gb, o in parts[i_][2]]
+            return "(" + op.join(c for c, _, _ in parts) + ")", B, gs
         if isinstance(e, ast.UnaryOp) and isinstance(e.op, ast.Not):
             c, t, g = self.expr(e.operand, env)
             if t != B: bad(e, "not of non-bool")
@@ -1266,12 +1274,288 @@ class CollTranslator:
         return "\n".join(out)
 
 
+class ParserFn(ModFn):
+    """a function of common/pauli_string_parser.py.  Python str = list of ASCII characters (non-ASCII text is outside the model);
+    s[i] is the one-character string at Python index i (IndexError outside); s[a:], s[:b] are Python slices; s.find of the one-character
+    SIZE; x in GATES / TOKENS = x is one of those one-character strings; x in DIGITS = x is a substring of "0123456789";
+    int(x) = the decimal value, used only where x is a non-empty string of ASCII digits (anything else leaves the model: NonInt);
+    "".join(["I" for _ in range(k)]) = k letters I; while loops run on fuel (OutOfFuel when it does not suffice)."""
+    CONSTS = {"LOWCASE": '["_"%char]', "SIZE": '["s"%char]'}
+    def __init__(self, tr, node):
+        Fn.__init__(self, tr, None, node)
+        self.coq = "py_P_" + node.name.lstrip("_")
+        self.params = {}
+        for a in node.args.args:
+            txt = ast.unparse(a.annotation) if a.annotation is not None else None
+            if txt != "str": bad(a, "parameter annotation %r" % txt)
+            self.params[a.arg] = STRT
+        self.self_t = None
+        self.narrow = set()
+        self.fuel = any(isinstance(x, ast.While) for x in ast.walk(node)) or any(
+            isinstance(x, ast.Call) and isinstance(x.func, ast.Name) and x.func.id in tr.fns and tr.fns[x.func.id].fuel for x in ast.walk(node))
+
+    def ann_type(self, a, node):
+        bad(node, "annotation")
+
+    def expr(self, e, env):
+        if isinstance(e, (ast.Compare, ast.UnaryOp, ast.Constant, ast.Subscript, ast.Name, ast.BinOp)):
+            x = self.expr_extra(e, env)
+            if x is not None:
+                return x
+        return Fn.expr(self, e, env)
+
+    def str_lit(self, node, v):
+        if not v.isascii() or any(ch in v for ch in '"\\\n'): bad(node, "string literal")
+        return "[" + "; ".join('"%s"%%char' % ch for ch in v) + "]"
+
+    def expr_extra(self, e, env):
+        if isinstance(e, ast.Name):
+            if e.id in self.CONSTS: return self.CONSTS[e.id], STRT, []
+            if e.id in self.narrow: return "(unopt_z v_%s)" % e.id, Z, []
+            return None
+        if isinstance(e, ast.Constant):
+            if isinstance(e.value, str): return self.str_lit(e, e.value), STRT, []
+            if e.value is None: return "None", T_opt(Z), []
+            return None
+        if isinstance(e, ast.Subscript):
+            c, t, g = self.expr(e.value, env)
+            if t != STRT: bad(e, "subscript of a non-str")
+            sl = e.slice
+            if isinstance(sl, ast.Slice):
+                if sl.step is not None: bad(e, "slice step")
+                if sl.lower is not None and sl.upper is None:
+                    a, ta, ga = self.expr(sl.lower, env)
+                    if ta != Z: bad(e, "slice bound")
+                    return "(slice_from %s %s)" % (c, a), STRT, g + ga
+                if sl.lower is None and sl.upper is not None:
+                    a, ta, ga = self.expr(sl.upper, env)
+                    if ta != Z: bad(e, "slice bound")
+                    return "(slice_to %s %s)" % (c, a), STRT, g + ga
+                bad(e, "slice shape")
+            ic, it_, ig = self.expr(sl, env)
+            if it_ != Z: bad(e, "index must be int")
+            return "[list_get \" \"%%char %s %s]" % (c, ic), STRT, g + ig + [("(idx_ok %s %s)" % (c, ic), "Raised EIndex")]
+        if isinstance(e, ast.UnaryOp) and isinstance(e.op, ast.Not):
+            c, t, g = self.expr(e.operand, env)
+            if t == STRT: return "(match %s with [] => true | _ => false end)" % c, B, g
+            return None
+        if isinstance(e, ast.UnaryOp) and isinstance(e.op, ast.USub) and isinstance(e.operand, ast.Constant) and isinstance(e.operand.value, int):
+            return "(-%d)" % e.operand.value, Z, []
+        if isinstance(e, ast.BinOp) and isinstance(e.op, ast.Add):
+            a, ta, ga = self.expr(e.left, env)
+            if ta == STRT:
+                b, tb, gb = self.expr(e.right, env)
+                if tb != STRT: bad(e, "str + non-str")
+                return "(%s ++ %s)" % (a, b), STRT, ga + gb
+            return None
+        if isinstance(e, ast.BoolOp) and isinstance(e.op, ast.Or):
+            return None
+        if isinstance(e, ast.Compare) and len(e.ops) == 1:
+            op = e.ops[0]
+            if isinstance(op, (ast.In, ast.NotIn)) and isinstance(e.comparators[0], ast.Name) and e.comparators[0].id in ("GATES", "TOKENS", "DIGITS"):
+                a, ta, ga = self.expr(e.left, env)
+                if ta != STRT: bad(e, "membership of a non-str")
+                c = "(in_%s %s)" % (e.comparators[0].id, a)
+                return (c if isinstance(op, ast.In) else "(negb %s)" % c), B, ga
+            if isinstance(op, (ast.Is, ast.IsNot)) and isinstance(e.comparators[0], ast.Constant) and e.comparators[0].value is None:
+                if not isinstance(e.left, ast.Name) or self.vars.get(e.left.id) != T_opt(Z): bad(e, "is None of a non-optional")
+                c = "(match v_%s with None => true | Some _ => false end)" % e.left.id
+                return (c if isinstance(op, ast.Is) else "(negb %s)" % c), B, []
+            if isinstance(op, (ast.Eq, ast.NotEq)):
+                a, ta, ga = self.expr(e.left, env)
+                if ta == STRT:
+                    b, tb, gb = self.expr(e.comparators[0], env)
+                    if tb != STRT: bad(e, "== of str with non-str")
+                    c = "(str_eqb %s %s)" % (a, b)
+                    return (c if isinstance(op, ast.Eq) else "(negb %s)" % c), B, ga + gb
+            return None
+        if isinstance(e, ast.Call):
+            f = e.func
+            if e.keywords: bad(e, "keyword arguments")
+            if ast.dump(e) == ast.dump(ast.parse('"".join(["I" for _ in range(0)])', mode="eval").body).replace("Constant(value=0)", ast.dump(e.args[0].elt and e.args[0].generators[0].iter.args[0]) if isinstance(e.args[0], ast.ListComp) and e.args[0].generators and isinstance(e.args[0].generators[0].iter, ast.Call) and e.args[0].generators[0].iter.args else "?"):
+                k_ = e.args[0].generators[0].iter.args[0]
+                c, t, g = self.expr(k_, env)
+                if t != Z: bad(e, "repeat count")
+                return "(repeat \"I\"%%char (Z.to_nat %s))" % c, STRT, g
+            if isinstance(f, ast.Name) and f.id == "len" and len(e.args) == 1:
+                c, t, g = self.expr(e.args[0], env)
+                if t != STRT: bad(e, "len of a non-str")
+                return "(Z.of_nat (length %s))" % c, Z, g
+            if isinstance(f, ast.Name) and f.id == "int" and len(e.args) == 1:
+                c, t, g = self.expr(e.args[0], env)
+                if t != STRT: bad(e, "int of a non-str")
+                return "(int_of_digits %s)" % c, Z, g + [("(all_digits %s)" % c, "NonInt")]
+            if isinstance(f, ast.Name) and f.id == "any" and len(e.args) == 1 and isinstance(e.args[0], ast.GeneratorExp):
+                ge = e.args[0]
+                if len(ge.generators) != 1 or ge.generators[0].ifs or not isinstance(ge.generators[0].target, ast.Name): bad(e, "generator shape")
+                x = ge.generators[0].target.id
+                it, tit, git = self.expr(ge.generators[0].iter, env)
+                if tit != STRT: bad(e, "any over a non-str")
+                if x in self.vars or x in self.params: bad(e, "generator variable shadows a local")
+                self.vars[x] = STRT
+                try:
+                    c, t, g = self.expr(ge.elt, env | {x})
+                finally:
+                    del self.vars[x]
+                if t != B or g: bad(e, "any of a non-bool or guarded element")
+                return "(existsb (fun v_%s => %s) (chars %s))" % (x, c, it), B, git
+            if isinstance(f, ast.Attribute) and f.attr == "find" and len(e.args) == 1 and isinstance(e.args[0], ast.Name) and e.args[0].id == "SIZE":
+                c, t, g = self.expr(f.value, env)
+                if t != STRT: bad(e, "find on a non-str")
+                return "(str_find %s \"s\"%%char)" % c, Z, g
+            if isinstance(f, ast.Name) and f.id in self.tr.fns:
+                fn = self.tr.fns[f.id]
+                if not fn.pure: bad(e, "call of %s inside an expression" % f.id)
+                cs, gs = [], []
+                for a in e.args:
+                    c, t, g = self.expr(a, env)
+                    if t != STRT: bad(a, "argument type")
+                    cs.append(c); gs += g
+                return "(%s %s)" % (fn.coq, " ".join(cs)), fn.ret, gs
+            return None
+        return None
+
+    def module_call(self, e):
+        if isinstance(e, ast.Call) and isinstance(e.func, ast.Name) and e.func.id in self.tr.fns and not e.keywords:
+            fn = self.tr.fns[e.func.id]
+            return None if fn.pure else fn
+        return None
+
+    def method_call(self, e):
+        fn = self.module_call(e)
+        if fn is None: return None
+        cs, gs = (["fuel"] if fn.fuel else []), []
+        for a in e.args:
+            c, t, g = self.expr(a, set(self.vars) | set(self.params))
+            if t != STRT: bad(a, "argument type")
+            cs.append(c); gs += g
+        self._call_guards = gs
+        return " ".join(cs), fn
+
+    def block(self, stmts, env, k):
+        if not stmts:
+            return Fn.block(self, stmts, env, k)
+        s, rest = stmts[0], stmts[1:]
+        # try: ... except ValueError as e: raise e   is transparent
+        if isinstance(s, ast.Try):
+            if s.orelse or s.finalbody or len(s.handlers) != 1 or ast.unparse(s.handlers[0]).split() != "except ValueError as e: raise e".split():
+                bad(s, "try statement other than `except ValueError as e: raise e`")
+            return self.block(s.body + rest, env, k)
+        if isinstance(s, ast.While):
+            if s.orelse: bad(s, "while-else")
+            c, t, g = self.expr(s.test, env)
+            if t != B or g: bad(s, "loop condition must be an unguarded bool")
+            body = self.block(s.body, env, None)
+            cont = self.block(rest, env, k)
+            return "(seqo (while_loop fuel (fun %s => %s) (fun %s => %s) %s) (fun %s => %s))" % (
+                pat(self.state()), c, pat(self.state()), body, tup(self.state()), pat(self.state()), cont)
+        # x = <call raising> with guards on the arguments; optional ints; str +=
+        if isinstance(s, ast.Assign) and len(s.targets) == 1 and isinstance(s.targets[0], ast.Name):
+            x = s.targets[0].id
+            if isinstance(s.value, ast.Constant) and s.value.value is None:
+                self.declare(x, T_opt(Z), s)
+                return "(let v_%s : option Z := None in %s)" % (x, self.block(rest, env | {x}, k))
+            m = self.method_call(s.value)
+            if m is not None:
+                args, fn = m
+                if self.vars.get(x) == T_opt(Z) and fn.ret == Z:
+                    return self.guard(self._call_guards, "(bindr (%s %s) (fun r_ => let v_%s := Some r_ in %s))" % (fn.coq, args, x, self.block(rest, env | {x}, k)))
+                self.declare(x, fn.ret, s)
+                return self.guard(self._call_guards, "(bindr (%s %s) (fun v_%s => %s))" % (fn.coq, args, x, self.block(rest, env | {x}, k)))
+        if isinstance(s, ast.AugAssign) and isinstance(s.op, ast.Add) and isinstance(s.target, ast.Name) and self.vars.get(s.target.id) == STRT:
+            x = s.target.id
+            if x not in env: bad(s, "+= on an unassigned name")
+            c, t, g = self.expr(s.value, env)
+            if t != STRT: bad(s, "str += non-str")
+            return self.guard(g, "(let v_%s := (v_%s ++ %s) in %s)" % (x, x, c, self.block(rest, env, k)))
+        if isinstance(s, ast.If):
+            # `if _is_number(c):` — a raising call as the test; `if x is not None:` narrows x to int inside the body
+            m = self.method_call(s.test)
+            if m is not None:
+                args, fn = m
+                if fn.ret != B: bad(s, "if on a non-bool call")
+                a = self.block(s.body, env, None); b = self.block(s.orelse, env, None)
+                cont = self.block(rest, self.after_if(s, env), k)
+                return self.guard(self._call_guards, "(bindr (%s %s) (fun c_ => seqo (if c_ then %s else %s) (fun %s => %s)))" % (fn.coq, args, a, b, pat(self.state()), cont))
+            t_ = s.test
+            if isinstance(t_, ast.Compare) and len(t_.ops) == 1 and isinstance(t_.ops[0], ast.IsNot) and isinstance(t_.left, ast.Name) \
+               and isinstance(t_.comparators[0], ast.Constant) and t_.comparators[0].value is None and not s.orelse:
+                x = t_.left.id
+                c, t, g = self.expr(t_, env)
+                self.narrow.add(x)
+                try:
+                    a = self.block(s.body, env, None)
+                finally:
+                    self.narrow.discard(x)
+                cont = self.block(rest, self.after_if(s, env), k)
+                return "(seqo (if %s then %s else Next %s) (fun %s => %s))" % (c, a, tup(self.state()), pat(self.state()), cont)
+        return Fn.block(self, stmts, env, k)
+
+    def prepare(self):
+        node = self.node
+        if node.args.vararg or node.args.kwarg or node.args.kwonlyargs or node.decorator_list or node.args.defaults:
+            bad(node, "signature")
+        body = [s for s in node.body if not (isinstance(s, ast.Expr) and isinstance(s.value, ast.Constant))]
+        self.ann = {}
+        self.pure = False
+        if len(body) == 1 and isinstance(body[0], ast.Return) and self.module_call(body[0].value) is None:
+            c, t, g = self.expr(body[0].value, set())
+            self.pure = not g
+
+    def emit(self):
+        self.prepare()
+        body = self.node.body
+        ps = ("(fuel : nat) " if self.fuel else "") + " ".join("(v_%s : %s)" % (n, coq_type(t)) for n, t in self.params.items())
+        if self.pure:
+            ret = [s for s in body if isinstance(s, ast.Return)][0]
+            c, t, g = self.expr(ret.value, set())
+            self.ret = t
+            return "Definition %s %s : %s := %s." % (self.coq, ps, coq_type(t), c)
+        self.block(body, set(), None)
+        term = self.block(body, set(), None)
+        if self.ret is None: bad(self.node, "no return type")
+        inits = "".join("let v_%s : %s := %s in " % (v, coq_type(t), default(t, self.tr.enums)) for v, t in self.vars.items() if v not in self.params)
+        return ("(* %s, lines %d-%d; state = (%s) *)\nDefinition %s %s : fres %s :=\n  %s@finish %s _ (%s)." % (
+            self.name, self.node.lineno, self.node.end_lineno, ", ".join(self.vars), self.coq, ps, coq_type(self.ret), inits, self.state_type(), term))
+
+
+class ParserTranslator:
+    WANT = ["_is_token", "_is_number", "_to_int", "pauli_string_parser"]
+    HEADER = ['LOWCASE = \'_\'', 'SIZE = \'s\'', 'DIGITS = \'0123456789\'', "GATES = {'I', 'X', 'Y', 'Z'}", 'TOKENS = GATES.copy()', 'TOKENS.add(LOWCASE)', 'TOKENS.add(SIZE)']
+    def __init__(self, repo):
+        self.path = os.path.join(repo, "src", "paulie", "common", "pauli_string_parser.py")
+        self.tree = ast.parse(open(self.path, newline=None, encoding="utf-8-sig").read())
+        self.enums, self.exns, self.fns = {}, [], {}
+        head = [ast.unparse(n) for n in self.tree.body if not isinstance(n, ast.FunctionDef) and not (isinstance(n, ast.Expr) and isinstance(n.value, ast.Constant))]
+        if head != self.HEADER:
+            raise Unsupported("module constants changed: %r" % (head,))
+        self.defs = {n.name: n for n in self.tree.body if isinstance(n, ast.FunctionDef)}
+
+    def run(self):
+        out = ["(* GENERATED by tools/py2coq.py from src/paulie/common/pauli_string_parser.py — do not edit *)",
+               "From PauLieRefine Require Import PySem.", "From PauLie Require Import Pauli Parser.", "Open Scope Z_scope.", "",
+               "(* module constants: GATES = {I,X,Y,Z}, TOKENS = GATES + {_, s} (sets of one-character strings), DIGITS = \"0123456789\" (a string: `in` is the substring test) *)",
+               "Definition in_GATES (x : list ascii) : bool := match x with [c] => is_gate c | _ => false end.",
+               "Definition in_TOKENS (x : list ascii) : bool := match x with [c] => is_token c | _ => false end.",
+               "Definition in_DIGITS (x : list ascii) : bool := substr_b x [\"0\"; \"1\"; \"2\"; \"3\"; \"4\"; \"5\"; \"6\"; \"7\"; \"8\"; \"9\"]%char.",
+               "Definition all_digits (x : list ascii) : bool := match x with [] => false | _ => forallb is_digit x end.",
+               "Definition int_of_digits (x : list ascii) : Z := match digits_val 0 x with Some n => Z.of_N n | None => 0 end.",
+               "Definition unopt_z (o : option Z) : Z := match o with Some z => z | None => 0 end.", ""]
+        for name in self.WANT:
+            node = self.defs.get(name)
+            if node is None: raise Unsupported("%s not found in the source" % name)
+            f = ParserFn(self, node)
+            self.fns[name] = f
+            out.append(f.emit()); out.append("")
+        return "\n".join(out)
+
+
 def main():
     repo, dst = sys.argv[1], sys.argv[2]
     which = sys.argv[3] if len(sys.argv) > 3 else "classification"
-    path = os.path.join(repo, "src", "paulie", {"classification": "classifier/classification.py", "compiler": "application/pauli_compiler.py", "pstring": "common/pauli_string_bitarray.py", "collection": "common/pauli_string_collection.py"}[which])
+    path = os.path.join(repo, "src", "paulie", {"classification": "classifier/classification.py", "compiler": "application/pauli_compiler.py", "pstring": "common/pauli_string_bitarray.py", "collection": "common/pauli_string_collection.py", "parser": "common/pauli_string_parser.py"}[which])
     try:
-        text = Translator(path).run() if which == "classification" else (CompTranslator(repo).run() if which == "compiler" else (PSTranslator(repo).run() if which == "pstring" else CollTranslator(repo).run()))
+        text = Translator(path).run() if which == "classification" else (CompTranslator(repo).run() if which == "compiler" else (PSTranslator(repo).run() if which == "pstring" else (CollTranslator(repo).run() if which == "collection" else ParserTranslator(repo).run())))
     except Unsupported as e:
         print("py2coq: cannot translate %s: %s" % (path, e)); sys.exit(3)
     with open(dst, "w") as f:
